@@ -13,7 +13,12 @@ def main(jp, op):
     def emit(obj):
         out.write(json.dumps(obj, sort_keys=True, default=repr) + "\n")
         out.flush()
-    evo.lifetime_body(job["root"], job["case"], job["prog"], [tuple(s) for s in job["steps"]], job["memo"], job["li"], emit)
+    try:
+        evo.lifetime_body(job["root"], job["case"], job["prog"], [tuple(s) for s in job["steps"]], job["memo"], job["li"], emit)
+    except BaseException as e:  # noqa  (same classification as core.lifetime: did library code raise it?)
+        import traceback
+        from sim import core
+        emit({"HARNESS": traceback.format_exc()[-3000:], "lib": core.lib_raised(e.__traceback__), "exc": type(e).__name__})
     out.close()
 
 
